@@ -1517,6 +1517,8 @@ class Ecdsa_pk_decompress(Instruction):
             )
 
         if contract_version >= 5:
+            if self._idx == "Secp256r1":
+                return 2400
             return 650
         return 0
 
@@ -5541,6 +5543,15 @@ class Sha3_256(Instruction):
     def __init__(self) -> None:
         super().__init__()
         self._version: int = 7
+
+    @property
+    def cost(self) -> int:
+        """cost of executing sha3_256 instruction is 130.
+
+        Returns:
+            OpcodeCost of the instruction.
+        """
+        return 130
 
 
 class Vrf_verify(Instruction):
